@@ -253,6 +253,10 @@ class Dummy:
         self.kwargs = kwargs
 
 
+class Other(Dummy):
+    """second recording entry point (a different class than Dummy)"""
+
+
 def run_registry(R):
     from jumanji import registration as reg
     pat, full, name_re, ver_re = grammar()
@@ -301,6 +305,18 @@ def run_registry(R):
                     bad.append({"class": label, "ids": [a, b], "raised": raised, "registry_changed": now != snap})
                 if not dup and (raised or len(now) != 2 or any(now.get(k_) != v for k_, v in snap.items())):
                     bad.append({"class": label, "ids": [a, b], "raised": raised, "registry": list(now)})
+                if not dup and not raised:
+                    # each id maps to ITS OWN configuration, whatever else is registered (same name / other version included) and in
+                    # whatever order the ids are made: a cache or lookup keyed by the name alone would hand out the first one's class
+                    for order in ((a, b), (b, a), (a, b)):
+                        for which in order:
+                            try:
+                                e_ = reg.make(which)
+                                want_cls, want_k = (Dummy, 1) if which == a else (Other, 2)
+                                if type(e_) is not want_cls or e_.kwargs.get("k") != want_k:
+                                    bad.append({"class": label, "ids": [a, b], "make": which, "built": type(e_).__name__, "kwargs": dict(e_.kwargs)})
+                            except Exception as ex:  # noqa
+                                bad.append({"class": label, "ids": [a, b], "make": which, "error": f"{type(ex).__name__}: {str(ex)[:100]}"})
         R.validated += n_pairs
         R.structural(f"duplicate registration refused and registry unchanged; distinct ids accepted ({n_pairs} solver-generated id pairs over all equality classes)",
                      not bad, {"failures": bad[:4]})
